@@ -13,6 +13,12 @@ CHECKS = {
         text="TLC enumerates every Write/Sum/Reset sequence of depth 3 (and simulated depth-8 sequences) over the write sizes around the padding boundaries; each is run on a real hash object and every returned value (prefix + digest, write counts) is validated by TLC against the HashObj specification whose digest oracle is the TLA+ transcription of the standard, tabulated by TLC for every stream length reached; one-shot digests for every length 0..N and HMAC-SM3 / PBKDF2-SM3 tables are compared too.",
         note="Trusts TLC + Bitwise overrides and the two GM/T 0004 vectors that anchor SM3.tla. One message content per length (plus all-0x00 / all-0xff at boundary lengths); multi-megabyte streams are not evaluated by TLC.",
         ref="DESIGN.md section 5 C04"),
+    "C05": dict(
+        level="model_checking",
+        technique="executable TLA+ transcription of GM/T 0002 (SM4.tla: algebraic S-box, CK by formula, KAT-checked) evaluated by TLC; the code's sbox/T-tables/FK/CK dumped through a verif accessor and compared entry-by-entry with the formulas by TLC; TLC-computed vectors and TLC-enumerated Encrypt/Decrypt call sequences on one object replayed and validated (CipherObjTrace)",
+        text="Every entry of the five tables and of FK/CK is compared with the standard's formula (exhaustive over the tables, so a wrong entry is found even if no vector reaches it); Enc/Dec are compared with TLC's values for the standard example, every single-bit key and block, byte fills and pseudo-random pairs; all call sequences of depth 3 (4 thorough) over Encrypt/Decrypt x 3 blocks x aliasing on one object are replayed and each result validated by TLC; key lengths 0..64.",
+        note="Trusts TLC + Bitwise, the GM/T 0002 example anchoring SM4.tla, and that VerifTables returns the arrays cryptBlock reads. Correctness for all 2^256 (key, block) pairs follows only insofar as the round structure is the standard's and the tables are right; it is decided on the enumerated vectors.",
+        ref="DESIGN.md section 5 C05"),
     "C19": dict(
         level="model_checking",
         technique="TLA+ spec PadStream + refinement PadStreamImpl checked by TLC; TLC-generated environments replayed on the real objects; recorded traces validated by TLC (PadStreamTrace)",
